@@ -164,7 +164,11 @@ func runUDPServer(st Stim) Trace {
 			}
 			pmu.Unlock()
 			if m >= 0 {
-				send(memnet.Build(message.Reset, int(codes.Empty), m, nil, nil, nil))
+				typ := message.Reset
+				if st.AckPong {
+					typ = message.Acknowledgement
+				}
+				send(memnet.Build(typ, int(codes.Empty), m, nil, nil, nil))
 			}
 		case "tick":
 			tickMu.Lock()
